@@ -11,6 +11,7 @@ import rules_mbuilder as rmb
 import rules_model as rm
 import rules_panic as rpn
 import shapes
+import rules_lm
 
 BOTH = ("default", "parallel")
 
@@ -30,6 +31,11 @@ def _panic_sites(F, ev, R, c, **kw):
     return rules_panic.rule_panic_sites(F, ev, R, c, **kw)
 
 
+def _fit_map(F, ev, R, c, **kw):
+    import rules_stats2
+    return rules_stats2.rule_fit_map(F, ev, R, c, **kw)
+
+
 def _chi2(F, ev, R, c, **kw):
     import rules_stats2
     return rules_stats2.rule_chi2(F, ev, R, c, **kw)
@@ -43,6 +49,8 @@ PROPS["C09"] = {
         ("R-ERR-DISCIPLINE", rules_err.rule_err_discipline, {}),
         ("R-JAC-ABSENT", rules_err.rule_jac_absent, {}),
         ("R-STATS-ERR-MAP", rules_stats.rule_stats_err_map, {}),
+        ("R-FIT-MAP", _fit_map, {}),
+        ("R-LM-CONTRACT", rules_lm.rule_lm_contract, {"configs": ("default",)}),
     ],
     "explanation": "Error discipline decided on the type-checked MIR of both feature configurations: every call site of a "
                    "Result-returning SeparableNonlinearModel method is propagated with ?, converted with .ok() into an Option whose "
@@ -85,6 +93,7 @@ PROPS["C08"]["rules"] += [
     ("R-ERR-DISCIPLINE", rules_err.rule_err_discipline, {}),
     ("R-SHAPES", shapes.rule_shapes, {}),
     ("R-PROBLEM-BUILD-TABLE", rp2.rule_problem_build_table, {}),
+    ("R-LM-CONTRACT", rules_lm.rule_lm_contract, {"configs": ("default",)}),
 ]
 PROPS["C08"]["explanation"] = ("Three clauses on the no-panic cone (local call graph from build/set_params/residuals/jacobian/fit/fit_with_statistics/statistics accessors/"
     "SeparableModel's trait impl and the wrapped user callables): (1) every SVD constructor call receives a matrix checked all-finite after its last arithmetic (qualifier dataflow over presence conditions); "
@@ -148,6 +157,7 @@ PROPS["C04"] = {
         ("R-RESID-TERM", rp.rule_resid_term, {}),
         ("R-PURE-PROJECTION", rp.rule_pure_projection, {}),
         ("R-SIBLING", rp2.rule_sibling, {"configs": ("parallel",)}),
+        ("R-LM-CONTRACT", rules_lm.rule_lm_contract, {"configs": ("default",)}),
     ],
     "explanation": "fit(): minimize is called on the caller-configured solver with the caller's problem; Ok and Err carry the same FitResult built from the optimizer's final problem "
                    "(all five roles moved unchanged) and report; Ok is reachable only on the successful edge of TerminationReason::was_successful and Err only on the other; "
